@@ -170,7 +170,7 @@ class NumpyBackendProvider(BackendProvider):
             arg_src = self._ir_to_source(arg)
             if arg_src is None:
                 return None
-            method = {'+': 'np.cumsum', '*': 'np.cumprod'}.get(op)
+            method = {'+': 'np.add.accumulate', '*': 'np.multiply.accumulate'}.get(op)
             if method is None:
                 return None  # |\ and &\ not supported in numpy
             return f'{method}({arg_src})'
